@@ -46,13 +46,12 @@ ASSUME \A c \in DOMAIN MAlpha : \A k \in DOMAIN MAlpha[c] :
           MClassCp(MAlpha[c][k]) = (IF c \in MInert THEN "O" ELSE c)
 
 \* ---- cluster structure ---------------------------------------------------------------------------------
-SeqsUpTo(U, n, x) == \E k \in 0..n : \E f \in [1..k -> U] : x = Flat(f)
 Rich == Tier = "thorough"
 
 KBases == {<<>>, <<"C">>, <<"Ra">>, <<"V">>, <<"GB">>, <<"DC">>}
-KRegs  == {<<>>, <<"RS">>, <<"N">>} \cup (IF Rich THEN {<<"ZWNJ", "RS">>, <<"RS", "N">>} ELSE {})
+KRegs  == {<<>>, <<"RS">>, <<"N">>} \cup (IF Rich THEN {<<"RS", "N">>} ELSE {})
 KCo    == {<<"H", "C">>, <<"H", "Ra">>, <<"H", "V">>}
-KMa    == {<<"VPre">>, <<"M">>, <<"Split">>} \cup (IF Rich THEN {<<"ZWJ", "M">>, <<"ZWNJ", "VPre">>, <<"M", "N">>} ELSE {})
+KMa    == {<<"VPre">>, <<"M">>, <<"Split">>} \cup (IF Rich THEN {<<"ZWJ", "M">>, <<"ZWNJ", "VPre">>} ELSE {})
 KFin   == {<<>>, <<"H", "C">>, <<"H", "Ra">>}
 KTails == {<<>>, <<"SM">>}
 KNCo   == IF Rich THEN 3 ELSE 2
@@ -68,18 +67,18 @@ KIsCase(x) ==
 
 MPrefixRich == {<<>>} \cup
   {kz \o b \o st : kz \in {<<>>, <<"Ra", "As", "H">>},
-                   b \in {<<"C">>, <<"C", "VS">>, <<"Ra">>, <<"GB">>} \cup (IF Rich THEN {<<"IV">>, <<"Ra", "VS">>} ELSE {}),
-                   st \in {<<>>, <<"H", "C">>, <<"H", "Ra">>} \cup (IF Rich THEN {<<"H", "C", "VS">>, <<"H", "C", "H", "Ra">>} ELSE {})}
-MPrefixPlain == {<<>>, <<"C">>, <<"Ra", "As", "H", "C">>} \cup (IF Rich THEN {<<"Ra">>, <<"C", "VS">>} ELSE {})
+                   b \in {<<"C">>, <<"Ra">>, <<"GB">>} \cup (IF Rich THEN {<<"IV">>} ELSE {}),
+                   st \in {<<>>, <<"H", "C">>, <<"H", "Ra">>} \cup (IF Rich THEN {<<"H", "Ra", "H", "C">>, <<"H", "C", "H", "Ra">>} ELSE {})}
+MPrefixPlain == {<<>>, <<"C">>, <<"Ra", "As", "H", "C">>} \cup (IF Rich THEN {<<"Ra">>} ELSE {})
 MMeds == {<<>>, <<"MY">>, <<"MR">>, <<"MY", "MR">>, <<"MR", "MW">>} \cup
-         (IF Rich THEN {<<"MW">>, <<"MH">>, <<"MY", "As", "MR", "MW", "MH">>, <<"MR", "MH", "ML">>, <<"MW", "As">>} ELSE {})
+         (IF Rich THEN {<<"MW">>, <<"MY", "As", "MR", "MW", "MH">>, <<"MR", "MH", "ML">>} ELSE {})
 MVPres == {<<>>, <<"VPre">>, <<"VPre", "VPre">>}
 MVAbvs == {<<>>, <<"VAbv">>}
 MVBlws == {<<>>, <<"VBlw">>, <<"VBlw", "VBlw">>}
 MAs    == {<<>>, <<"A">>, <<"A", "A">>}
 MDbs   == {<<>>, <<"DB">>} \cup (IF Rich THEN {<<"DB", "As">>} ELSE {})
-MVPosts == {<<>>, <<"VPst">>} \cup (IF Rich THEN {<<"VPst", "A">>, <<"VPst", "MH", "As", "VAbv", "A", "DB">>} ELSE {<<"VPst", "A">>})
-MEnds  == {<<>>, <<"SM">>} \cup (IF Rich THEN {<<"PT", "A">>, <<"SM", "ZWJ">>} ELSE {})
+MVPosts == {<<>>, <<"VPst">>} \cup {<<"VPst", "A">>}
+MEnds  == {<<>>, <<"SM">>} \cup (IF Rich THEN {<<"PT", "A", "ZWJ">>} ELSE {})
 MAs0   == {<<>>, <<"As">>}
 MTailsSmall == {<<>>, <<"H">>, <<"VPre">>, <<"MR">>, <<"VBlw", "A">>, <<"MR", "VPre", "VBlw", "A", "VPst">>,
                 <<"As", "MY", "MR", "VPre", "VAbv", "VBlw", "A", "DB">>, <<"VAbv", "A">>, <<"MR", "VBlw", "VBlw", "A", "A", "DB", "As">>,
